@@ -133,10 +133,12 @@ class TokenFile:
             with fasteners.InterProcessLock(lockpath):
                 if not pidpath.is_file():
                     logger.debug("Job already finished (no PID file)")
+                elif pidpath.read_text() == "":
+                    # We hold the job lock, so nobody is writing the file: it
+                    # was left empty by a scheduler that died while writing it
+                    logger.debug("Job already finished (empty PID file)")
                 else:
-                    s = ""
-                    while s == "":
-                        s = pidpath.read_text()
+                    s = pidpath.read_text()
 
                     logger.info("Loading job watcher from definition")
                     from experimaestro.connectors import Process
